@@ -1,8 +1,8 @@
 """Per-property texts of MANIFEST.json (kept next to props.py)."""
 
-MAPPER_NOTE = ('Trusted: Verus/Z3/rustc; the assembler (extraction rules E1-E3, E2\', N2 and the token weave; executable tokens always come from /repo/src); '
+MAPPER_NOTE = ('Trusted: Verus/Z3/rustc; the assembler (extraction rules E1-E3, E2\', N2, N4 and the token weave; executable tokens always come from /repo/src); '
                'assumed contracts on std (<[T]>::contains, HashMap::get_mut, Vec length <= isize::MAX, KeyCode key model); rustc derive(Clone) = field-wise clone; '
-               'N2 (Vec::retain -> index loop) validated by differential execution in the thorough tier. Precondition: the layout has non-empty triggers and no key twice in a trigger or an output '
+               'N2 (Vec::retain -> index loop) and N4 (iter().any -> index loop) validated by differential execution in the thorough tier. Precondition: the layout has non-empty triggers and no key twice in a trigger or an output '
                '(what Mapper::for_layout panics on otherwise). The plain-Rust witness search only attaches a concrete input to a failed obligation; it never decides.')
 
 TEXT = {
@@ -116,8 +116,8 @@ TEXT.update({
                     'physically held and not a trigger key of the mapping, or is an output key of a layout mapping whose output does not end in a non-modifier key and whose trigger keys are all physically held '
                     '(c04_statement in spec/trace.rs). Carried by: release_action_mappings ensures ram_done (no output of a key-producing mapping in effect that carries modifiers is still held for a mapping), '
                     'add_new_mapping keeps c04_st over its output loop and establishes c04_anm in the iteration of the final key, newly_press and Mapper::step pass it on (c04_instant). '
-                    'One helper contract is assumed (is_any_modifier) and validated by a bounded enumeration on every run.'),
-        design_ref='6.4', level_note=MAPPER_NOTE + ' The contract of is_any_modifier is assumed (external_body) and backed only by a bounded comparison.'),
+                    'The helper is_any_modifier is verified after its iterator adapter is written out as a loop (rewrite N4, compared with the real function by a bounded enumeration on every run).'),
+        design_ref='6.4', level_note=MAPPER_NOTE + ' is_any_modifier is verified on its N4-rewritten text.'),
     'C05': dict(
         technique='deductive verification (Verus): lift-scope / drop-scope postconditions carried from release_action_mappings, release_absorbed_keys, remove_mapping, add_new_mapping, newly_press, newly_release to Mapper::step on the real code, lifted by the verified client universal_client_c05',
         level_text=('Proof, unbounded, per step of every history from every reachable state: every Released(x) a press step emits satisfies Mapper::lift_scope (x is an output of a key-producing mapping in effect that '
@@ -126,8 +126,8 @@ TEXT.update({
                     'in effect that has it in its trigger, and no mapping remaining in effect outputs x). From these and "mappings in effect / absorbed keys come from the layout" the client proves: a key that appears '
                     'nowhere in the layout is pressed exactly by the step of its own press, as the last event, is lifted only by its own release or (non-modifier) by a step firing a no-repeat mapping, and is down only '
                     'while considered pressed; with an empty layout every well-formed event is forwarded as the only event of its step; the release clause; the two in-effect clauses for layouts without absorbing. '
-                    'One helper contract is assumed (is_any_modifier, an iterator adapter) and validated by a bounded enumeration on every run.'),
-        design_ref='6.5', level_note=MAPPER_NOTE + ' The contract of is_any_modifier is assumed (external_body) and backed only by a bounded comparison.'),
+                    'The helper is_any_modifier is verified after its iterator adapter is written out as a loop (rewrite N4, compared with the real function by a bounded enumeration on every run).'),
+        design_ref='6.5', level_note=MAPPER_NOTE + ' is_any_modifier is verified on its N4-rewritten text.'),
     'C03': dict(
         technique='deductive verification (Verus): firing specification of newly_press / add_new_mapping against a layout-level spec function, on the real code, lifted by the universal client',
         level_text=('Proof, unbounded, from every reachable state: the mapping that takes effect on a new key press is layout_fired(layout, pressed, absorbed, k) - by definition the last-listed mapping whose final trigger '
